@@ -44,7 +44,7 @@ TotalOK(e) ==
   /\ LET ws    == e.toks
          n     == Len(ws)
          body  == IF e.term = "end" THEN ws ELSE SubSeq(ws, 1, n - 1)
-         clean == AllTokOK(body) /\ MaxNesting(AbsToks(body)) <= NestingDomain
+         clean == AllTokOK(body) /\ MaxNesting(AbsToks(body)) <= NestingDomain /\ PrefixOK(AbsToks(body))
      IN CASE e.term = "bad"   -> /\ ~e.sync.ok
                                  /\ clean => (e.sync.err = "InvalidTag" /\ e.sync.tag = ws[n].b)
           [] e.term = "trunc" -> /\ ~e.sync.ok
